@@ -1970,10 +1970,11 @@ func deserialize_vector_u64(deserializer serde.Deserializer) ([]uint64, error) {
 	if err != nil {
 		return nil, err
 	}
-	obj := make([]uint64, length)
-	for i := range obj {
+	// the length comes from the input: grow with the elements actually present instead of trusting it
+	obj := make([]uint64, 0, min(length, 1024))
+	for i := uint64(0); i < length; i++ {
 		if val, err := deserializer.DeserializeU64(); err == nil {
-			obj[i] = val
+			obj = append(obj, val)
 		} else {
 			return nil, err
 		}
